@@ -2,7 +2,7 @@
 repo test files, generated well-formed archives of all five formats, and damaged variants; plus fault-plan expansion."""
 import os, glob, random, struct
 import vlib
-from vlib import scenario, gen, cabfmt, chmfmt, kwajfmt, oabfmt
+from vlib import scenario, gen, cabfmt, chmfmt, kwajfmt, oabfmt, qtmenc
 
 REPO_CAB = os.path.join(vlib.REPO, "libmspack", "test", "test_files", "cabd")
 REPO_CHM = os.path.join(vlib.REPO, "libmspack", "test", "test_files", "chmd")
@@ -224,4 +224,83 @@ def hostile_cases(rng, n):
         for k in order: sc.op("cab_append", "c%d" % (k - 1), "c%d" % k)
         sc.op("cab_extract_all", "c0", "out", 6).op("cab_close", "c0")
         out.append(Case("hostile:cab-salvage-skip", "cab", sc))
+    return out
+
+class BitsLSB:
+    def __init__(s): s.out = bytearray(); s.acc = 0; s.n = 0
+    def bits(s, v, n):
+        for i in range(n):
+            s.acc |= ((v >> i) & 1) << s.n; s.n += 1
+            if s.n == 8: s.out.append(s.acc); s.acc = 0; s.n = 0
+    def huff(s, code, n):       # Huffman codes are sent most significant bit first
+        for i in range(n - 1, -1, -1): s.bits((code >> i) & 1, 1)
+    def done(s):
+        if s.n: s.out.append(s.acc)
+        return bytes(s.out)
+def fixed_deflate(tokens):
+    """one fixed-Huffman deflate block; tokens: ('L', byte) | ('M', length 3..10, distance 1..4)"""
+    b = BitsLSB(); b.bits(1, 1); b.bits(1, 2)
+    for t in tokens:
+        if t[0] == "L":
+            v = t[1]
+            if v < 144: b.huff(0x30 + v, 8)
+            else: b.huff(0x190 + v - 144, 9)
+        else:
+            _, ln, dist = t
+            b.huff(ln - 2, 7)           # length codes 257..264 = lengths 3..10, 7-bit codes 0000001..
+            b.huff(dist - 1, 5)         # distance codes 0..3 = distances 1..4
+    b.huff(0, 7)
+    return b.done()
+
+class BitsMSB:
+    def __init__(s): s.out = bytearray(); s.acc = 0; s.n = 0
+    def bits(s, v, n):
+        for i in range(n - 1, -1, -1):
+            s.acc = (s.acc << 1) | ((v >> i) & 1); s.n += 1
+            if s.n == 8: s.out.append(s.acc); s.acc = 0; s.n = 0
+    def done(s):
+        if s.n: s.out.append(s.acc << (8 - s.n))
+        return bytes(s.out)
+
+def uninit_cases(rng, n):
+    """inputs whose decoding would read memory the decoder never wrote (C11): matches reaching before the start of the stream
+    (MSZIP in CAB and KWAJ, Quantum), KWAJ LZH length lists of an undefined type"""
+    out = []
+    for i in range(n):
+        toks = []
+        for _ in range(rng.randrange(1, 6)):
+            toks.append(("M", rng.randrange(3, 11), rng.randrange(1, 5)) if rng.random() < 0.6 or not toks else ("L", rng.randrange(256)))
+        if toks[0][0] != "M": toks.insert(0, ("M", 3, rng.randrange(1, 5)))
+        ulen = sum(1 if t[0] == "L" else t[1] for t in toks)
+        z = b"CK" + fixed_deflate(toks)
+        cab = cabfmt.build_cab([(1, [(z, ulen)])], [(b"leak.bin", ulen, 0, 0, 0x5A21, 0x6C43, 0x20)])
+        sc = scenario.Scn().file("in0.cab", cab); cab_ops(sc, 1, 4); out.append(Case("uninit:mszip-early-match", "cab", sc))
+        import struct
+        kw = kwajfmt.kwaj(4, struct.pack("<H", len(z)) + z + b"\0\0", 1, ulen)
+        sc = scenario.Scn().file("in0.kwj", kw); fmt_ops("kwaj", sc); out.append(Case("uninit:kwaj-mszip-early-match", "kwaj", sc))
+    for i in range(n):
+        # LZSS: the very first tokens copy from ring positions at and beyond the initial write position (never written by the decoder)
+        kind = i % 3; mode = [0, 2, 2][kind]; start = 4096 - (18 if mode == 2 else 16)
+        body = bytearray(); ctrl = 0; k = 0
+        for _ in range(rng.randrange(1, 5)):
+            mp = rng.randrange(start, 4096); ln = rng.randrange(3, 19)
+            body.append(mp & 255); body.append(((mp >> 8) << 4) | (ln - 3)); k += 1
+        stream = bytes([0]) + bytes(body)          # control byte 0: all (up to 8) items are matches
+        if kind == 0: f = kwajfmt.szdd(0, 0, stream); nm = "in0.sz"; fmt = "szdd"
+        elif kind == 1: f = kwajfmt.szdd(1, 0, stream); nm = "in0.sz"; fmt = "szdd"
+        else: f = kwajfmt.kwaj(2, stream, 0); nm = "in0.kwj"; fmt = "kwaj"
+        sc = scenario.Scn().file(nm, f); fmt_ops(fmt, sc); out.append(Case("uninit:lzss-ahead-of-cursor", fmt, sc))
+    for i in range(n):
+        wb = rng.choice([10, 12, 15]); total = rng.choice([50, 3000])
+        frames = []; stream, _ = qtmenc.encode(rng, wb, total, frames=frames, early=True)
+        cab = cabfmt.build_cab([(2 | (wb << 8), [(f, min(32768, total - 32768 * k)) for k, f in enumerate(frames)])], [(b"q.bin", total, 0, 0, 0x5A21, 0x6C43, 0x20)])
+        sc = scenario.Scn().file("in0.cab", cab); cab_ops(sc, 1, 4); out.append(Case("uninit:qtm-early-match", "cab", sc))
+    for i in range(n):
+        b = BitsMSB()
+        types = [rng.choice([0, 1, 2, 3, 4, 7, 15]) for _ in range(6)]
+        if all(t < 4 for t in types[:5]): types[rng.randrange(5)] = rng.randrange(4, 16)
+        for t in types: b.bits(t, 4)
+        for _ in range(rng.randrange(4, 200)): b.bits(rng.randrange(256), 8)
+        kw = kwajfmt.kwaj(3, b.done(), 0)
+        sc = scenario.Scn().file("in0.kwj", kw); fmt_ops("kwaj", sc); out.append(Case("uninit:kwaj-lzh-type", "kwaj", sc))
     return out
